@@ -724,6 +724,12 @@ func HitSites() []string {
 // world executes more statements than the budget allows (non-termination).
 type BudgetExceeded struct{}
 
+// SelfDeadlock is the panic value thrown when code running outside a task (one goroutine, one
+// instance) blocks on a simulated lock that is still held: nobody is left to release it.
+type SelfDeadlock struct{}
+
+func (SelfDeadlock) Error() string { return "simrt: lock is still held and nobody can release it (self-deadlock)" }
+
 func (BudgetExceeded) Error() string { return "simrt: statement budget exceeded (non-termination)" }
 
 var (
